@@ -49,6 +49,9 @@ THEOREMS = [
     "SleapVerif.C20.nonfinite_rejected",
     "SleapVerif.C20.validators_reject_nan",
     "SleapVerif.C20.oneof_rejects",
+    "SleapVerif.C20.which_oneof_raises",
+    "SleapVerif.C20.oneof_rejects_after_assignment",
+    "SleapVerif.C20.builders_history_independent",
 ]
 
 GEO = ["rotation", "scale", "translate", "erase_scale", "mixup"]
@@ -223,6 +226,104 @@ def from_json(o):
     return o
 
 
+def scramble(o, depth=0):
+    """what a caller may do with a config object it was handed: overwrite every option in place
+    (attrs attribute assignment, dict / list item assignment), recursively"""
+    def changed(v):
+        if isinstance(v, bool):
+            return not v
+        if isinstance(v, int):
+            return v + 3
+        if isinstance(v, float):
+            return v * 0.5 + 0.125
+        if isinstance(v, str):
+            return v + "_mutated"
+        if v is None:
+            return 7
+        if isinstance(v, tuple):
+            return tuple(changed(x) for x in v)
+        return v
+    if depth > 6:
+        return
+    if hasattr(o, "__attrs_attrs__"):
+        for a in o.__attrs_attrs__:
+            v = getattr(o, a.name)
+            if hasattr(v, "__attrs_attrs__") or isinstance(v, (dict, list)):
+                scramble(v, depth + 1)
+            else:
+                try:
+                    setattr(o, a.name, changed(v))
+                except Exception:
+                    pass        # a validator refused the new value: the caller's problem, not ours
+    elif isinstance(o, dict):
+        for k in list(o):
+            if hasattr(o[k], "__attrs_attrs__") or isinstance(o[k], (dict, list)):
+                scramble(o[k], depth + 1)
+            else:
+                o[k] = changed(o[k])
+    elif isinstance(o, list):
+        for i in range(len(o)):
+            if hasattr(o[i], "__attrs_attrs__") or isinstance(o[i], (dict, list)):
+                scramble(o[i], depth + 1)
+            else:
+                o[i] = changed(o[i])
+
+
+def first_diff(a, b, p=()):
+    if isinstance(a, dict) and isinstance(b, dict):
+        for k in sorted(set(a) | set(b)):
+            if a.get(k, "<absent>") != b.get(k, "<absent>"):
+                return first_diff(a.get(k, "<absent>"), b.get(k, "<absent>"), p + (k,))
+    try:
+        return f"{'.'.join(p) or '<root>'}: {untag(a)!r} instead of {untag(b)!r}"
+    except Exception:
+        return f"{'.'.join(p) or '<root>'}: {a!r} instead of {b!r}"
+
+
+def all_diffs(a, b, p=()):
+    """paths of all leaves (or sub-trees of different kind) at which two typed trees differ"""
+    if isinstance(a, dict) and isinstance(b, dict):
+        out = []
+        for k in sorted(set(a) | set(b)):
+            if k not in a or k not in b:
+                out.append(p + (k,))
+            elif a[k] != b[k]:
+                out += all_diffs(a[k], b[k], p + (k,))
+        return out
+    return [p] if a != b else []
+
+
+def shared_default_fields(impl):
+    """field names whose attrs default is ONE mutable object shared by every instance (a literal list /
+    dict / config object instead of a factory) — the structural signature of F-C20c"""
+    out = set()
+    for c in impl.classes.values():
+        for a in c.__attrs_attrs__:
+            d = a.default
+            if isinstance(d, (list, dict)) or hasattr(d, "__attrs_attrs__"):
+                out.add(a.name)
+    return out
+
+
+def only_shared_defaults(impl, a, b):
+    if a[0] != "ok" or b[0] != "ok":
+        return False
+    ds = all_diffs(a[1], b[1])
+    sh = shared_default_fields(impl)
+    return bool(ds) and bool(sh) and all(any(k in sh for k in d) for d in ds)
+
+
+def describe(sub):
+    op = sub["op"]
+    if op == "aug":
+        return f"get_aug_config({sub['ia']!r}, {sub['ga']!r})"
+    if op in ("backbone", "head"):
+        return f"get_{'backbone_config' if op == 'backbone' else 'head_configs'}({sub['a']!r})"
+    if op == "new":
+        return f"{sub['cls']}()"
+    return f"get_{op}_config(" + ", ".join(f"{k}={v!r}" for k, v in sub["kw"].items()) + ")"
+
+
 # ------------------------------------------------------------------ implementation side
 class Impl:
     def __init__(self):
@@ -280,6 +381,74 @@ class Impl:
         ba.apply_defaults()
         return dict(ba.arguments)
 
+    BUILDER_OPS = ("aug", "backbone", "head", "data", "model", "trainer")
+
+    def raw_call(self, sub):
+        """one builder call, returning the attrs object itself: ('ok', obj) | ('raise', cls, msg)"""
+        import copy
+
+        sub = copy.deepcopy(sub)     # the objects built may keep references to list/dict arguments; the
+        tr, op = self.tr, sub["op"]  # recorded case must not change when a result is overwritten in place
+        if op == "aug":
+            return call(tr.get_aug_config, sub["ia"], sub["ga"])
+        if op == "backbone":
+            return call(tr.get_backbone_config, sub["a"])
+        if op == "head":
+            return call(tr.get_head_configs, sub["a"])
+        if op == "new":
+            return call(self.classes[sub["cls"]])
+        return call(getattr(tr, f"get_{op}_config"), **sub["kw"])
+
+    def observed(self, r):
+        if r[0] == "raise":
+            return ("raise", r[1])
+        r2 = call(self.structured, r[1])
+        return ("raise", r2[1]) if r2[0] == "raise" else ("ok", tag(r2[1]))
+
+    def prime(self, cases):
+        """results of every call that occurs in a history, taken BEFORE any object is mutated in this
+        process: the stand-in for 'the same call in a fresh interpreter state'"""
+        self.fresh = getattr(self, "fresh", {})
+        for c in cases:
+            if c["op"] == "hist":
+                for st in c["steps"]:
+                    if "call" in st:
+                        k = json.dumps(to_json(st["call"]), sort_keys=True)
+                        if k not in self.fresh:
+                            self.fresh[k] = self.observed(self.raw_call(st["call"]))
+
+    def run_history(self, case):
+        lines, outs, objs = [], [], []
+        for st in case["steps"]:
+            if "call" in st:
+                lines.append(model_lines_only(self, st["call"])[0])
+                r = self.raw_call(st["call"])
+                objs.append(r[1] if r[0] == "ok" else None)
+                outs.append(self.observed(r))      # what the call returned, at the time it returned
+            else:
+                o = objs[st["mutate"]] if st["mutate"] < len(objs) else None
+                if o is not None:
+                    scramble(o)
+        return lines, ("hist", outs)
+
+    def run_which(self, case):
+        cls = self.classes[case["cls"]]
+        kwt = {f: self.defaults[c] for f, c in case["init"].items()}
+        asg = " ".join(["N", str(len(case["assign"]))] +
+                       [enc(f) + " " + toks(self.defaults[c] if c else None) for f, c in case["assign"]])
+        line = f"which {case['mode']} {case['cls']} {toks(kwt)} {asg}"
+
+        def go():
+            obj = cls(**{f: self.classes[c]() for f, c in case["init"].items()})
+            for f, c in case["assign"]:
+                setattr(obj, f, self.classes[c]() if c else None)
+            if case["mode"] == "name":
+                return obj.which_oneof_attrib_name()
+            v = obj.which_oneof()
+            return None if v is None else self.structured(v)
+        r = call(go)
+        return [line], (("raise", r[1]) if r[0] == "raise" else ("ok", tag(r[1])))
+
     def case_kwargs(self, case):
         """keyword arguments of a ctor/bctor case; `yaml` = {dotted.path: YAML literal} entries are loaded
         with OmegaConf (the way a value reaches the classes from a config file) and put in place"""
@@ -298,6 +467,10 @@ class Impl:
     def run(self, case):
         op = case["op"]
         tr = self.tr
+        if op == "hist":
+            return self.run_history(case)
+        if op == "which":
+            return self.run_which(case)
         if op == "aug":
             ia, ga = case["ia"], case["ga"]
             return ([f"aug fixed {toks(tag(ia))} {toks(tag(ga))}", f"aug asIs {toks(tag(ia))} {toks(tag(ga))}"],
@@ -550,8 +723,10 @@ def oracle_builder(impl: Impl, kind, kw):
             if not isinstance(bb.get(fam), dict) or sum(v is not None for v in bb.values()) != 1:
                 return f"preset {b}: backbone_config.{fam} is not the only backbone set"
         elif isinstance(b, dict) and b:
-            fam = next(f for f in ("unet", "convnext", "swint") if f in b)
-            for k, v in b[fam].items():
+            fam = next((f for f in ("unet", "convnext", "swint") if f in b), None)
+            if fam and not isinstance(bb.get(fam), dict):
+                return f"backbone_config={b!r}: {fam} requested but backbone_config.{fam} is not set"
+            for k, v in (b[fam].items() if fam else []):
                 if get(bb, (fam, k)) != tag(v):
                     return f"backbone_config[{fam}][{k}] not reflected"
         if isinstance(h, str):
@@ -560,6 +735,8 @@ def oracle_builder(impl: Impl, kind, kw):
         elif isinstance(h, dict):
             first = next((f for f in HEADS if h.get(f) is not None), None)
             if first:
+                if not isinstance(hd.get(first), dict):
+                    return f"head_configs={h!r}: {first} requested but head_configs.{first} is not set"
                 for layer, kws in h[first].items():
                     for k, v in kws.items():
                         if get(hd, (first, layer, k)) != tag(v):
@@ -572,6 +749,8 @@ def oracle_builder(impl: Impl, kind, kw):
         if isinstance(s, dict):
             first = next((k for k, v in s.items() if v is not None and k in ("step_lr", "reduce_lr_on_plateau")), None)
             if first:
+                if not isinstance(ls.get(first), dict):
+                    return f"lr_scheduler={s!r}: scheduler {first} requested but lr_scheduler.{first} is not set"
                 for k, v in s[first].items():
                     if get(ls, (first, k)) != tag(v):
                         return f"lr_scheduler[{first}][{k}] not reflected"
@@ -956,6 +1135,83 @@ def edge_cases():
                 yield {"op": "bctor", "fn": fn, "kw": json.loads(json.dumps(fixed)), "yaml": {path: lit}, **base}
 
 
+BB_CLS = {"unet": "UNetConfig", "convnext": "ConvNextConfig", "swint": "SwinTConfig"}
+HD_CLS = {"single_instance": "SingleInstanceConfig", "centroid": "CentroidConfig",
+          "centered_instance": "CenteredInstanceConfig", "bottomup": "BottomUpConfig"}
+
+
+def which_cases(chk: Check):
+    """construct a valid union object, assign attributes, ask which type is set"""
+    rng = chk.rng
+    for cls, fields in (("BackboneConfig", BB_CLS), ("HeadConfig", HD_CLS)):
+        inits = [{}] + [{f: c} for f, c in fields.items()]
+        one = [[f, c] for f, cc in fields.items() for c in (cc, None)]
+        seqs = [[a] for a in one] + [[a, b] for a in one for b in one]
+        if cls == "HeadConfig" and not chk.thorough:
+            seqs = [[a] for a in one] + rng.sample([[a, b] for a in one for b in one], 24)
+        for init in inits:
+            for seq in seqs:
+                for mode in ("name", "value"):
+                    yield {"op": "which", "cls": cls, "init": init, "assign": seq, "mode": mode}
+
+
+SCHEMA_CLASSES = []      # filled in main from the working tree (every attrs class that has a no-argument constructor)
+
+
+def hist_cases(chk: Check):
+    """histories: builder calls interleaved with in-place mutation of objects handed out earlier"""
+    rng = chk.rng
+    D = {"train_labels_path": "t.slp", "val_labels_path": "v.slp"}
+
+    def H(kind, *subs):
+        # call, scramble what it returned, call again (same arguments), ... and once more at the end
+        steps, n = [], 0
+        for sub in subs:
+            steps += [{"call": sub}, {"mutate": n}, {"call": sub}]
+            n += 2
+        steps += [{"mutate": n - 1}, {"call": subs[0]}]
+        return {"op": "hist", "kind": kind, "steps": steps}
+
+    for b in PRESETS:
+        yield H("backbone-preset", {"op": "backbone", "a": b})
+        yield H("model-preset", {"op": "model", "kw": {"backbone_config": b, "head_configs": rng.choice(HEADS)}})
+    for f in BB_F:
+        yield H("backbone-dict", {"op": "backbone", "a": {f: {}}})
+    for h in HEADS:
+        yield H("head", {"op": "head", "a": h})
+        yield H("model-head", {"op": "model", "kw": {"head_configs": h}})
+    yield H("head", {"op": "head", "a": None}, {"op": "head", "a": {"bottomup": {"confmaps": {}, "pafs": {}}}})
+    for ia, ga in [(None, None), ("contrast", "rotation"), (INT, GEO), ({}, {}), (["brightness"], ["mixup", "scale"]),
+                   ({"contrast_p": 1.0}, {"rotation": 90.0})]:
+        yield H("aug", {"op": "aug", "ia": ia, "ga": ga})
+        yield H("data", {"op": "data", "kw": {**D, "use_augmentations_train": True, "intensity_aug": ia, "geometry_aug": ga}})
+    yield H("data", {"op": "data", "kw": dict(D)}, {"op": "data", "kw": {**D, "crop_hw": (160, 160), "scale": 0.5}})
+    for ls in [None, "step_lr", "reduce_lr_on_plateau", {"step_lr": {"step_size": 5}}, {"reduce_lr_on_plateau": {}}]:
+        yield H("trainer", {"op": "trainer", "kw": {"lr_scheduler": ls}})
+    yield H("trainer", {"op": "trainer", "kw": {}}, {"op": "trainer", "kw": {"early_stopping": True, "use_wandb": True}})
+    # the schema classes themselves: Cls(); overwrite it in place; Cls() again
+    for cls in SCHEMA_CLASSES:
+        yield H("constructor", {"op": "new", "cls": cls})
+    # random mixed histories
+    gens = [lambda: {"op": "backbone", "a": rng.choice(PRESETS)},
+            lambda: {"op": "backbone", "a": gen_backbone(rng)},
+            lambda: {"op": "head", "a": gen_head(rng)},
+            lambda: {"op": "model", "kw": gen_kw(rng, MODEL_GEN)},
+            lambda: {"op": "trainer", "kw": gen_kw(rng, TRAINER_GEN)},
+            lambda: {"op": "data", "kw": {**D, **gen_kw(rng, DATA_GEN)}},
+            lambda: {"op": "aug", "ia": gen_aug_arg(rng, INT, INT_FIELDS), "ga": gen_aug_arg(rng, GEO, GEO_FIELDS)}]
+    for _ in range(chk.n(40, 400)):
+        pool = [rng.choice(gens)() for _ in range(rng.randrange(1, 4))]
+        steps, ncalls = [], 0
+        for _ in range(rng.randrange(3, 9)):
+            if ncalls and rng.random() < 0.4:
+                steps.append({"mutate": rng.randrange(ncalls)})
+            else:
+                steps.append({"call": rng.choice(pool)})
+                ncalls += 1
+        yield {"op": "hist", "kind": "random", "steps": steps}
+
+
 def rand_tree(rng, depth=0):
     if depth >= 3 or rng.random() < 0.35:
         return rng.choice([None, True, 0, 1, 2.5, 0.1, "x", "", "a b", [1, 2], [], [0.5, "y"], [[1, "a"], []]])
@@ -1025,6 +1281,8 @@ def build_cases(chk: Check, impl: Impl):
     cases.append({"op": "data", "kw": {"train_labels_path": "t.slp", "val_labels_path": "v.slp"}})
     cases.append({"op": "model", "kw": {}})
     cases.append({"op": "trainer", "kw": {}})
+    for ls in ({"step_lr": {}}, {"reduce_lr_on_plateau": {}}, {"step_lr": None, "reduce_lr_on_plateau": {}}):
+        cases.append({"op": "trainer", "kw": {"lr_scheduler": ls}})
     for b in PRESETS:
         for h in HEADS:
             cases.append({"op": "model", "kw": {"backbone_config": b, "head_configs": h}})
@@ -1046,6 +1304,7 @@ def build_cases(chk: Check, impl: Impl):
     # --- validators
     cases += list(invalid_cases())
     cases += list(edge_cases())
+    cases += list(which_cases(chk))
     # --- merge on arbitrary trees (OmegaConf.merge itself)
     cases += [{"op": "merge", "s": {"a": 1, "b": {"c": "x"}}, "c": {"b": {"c": "y", "d": None}, "e": [1, 0.5]}},
               {"op": "merge", "s": {"a": {"x": 1}}, "c": {"a": None}}, {"op": "merge", "s": {"a": None}, "c": {"a": {"x": 1}}},
@@ -1117,6 +1376,8 @@ def classify(case):
         return [f"{op}:" + ("str" if isinstance(a, str) else "dict" if isinstance(a, dict) else "other")]
     if op == "verify":
         return ["verify:" + case["kind"]]
+    if op == "which":
+        return [f"oneof-after-assignment:{case['mode']}"]
     if op in ("ctor", "bctor"):
         return [f"edge:{op}:{'yaml' if case.get('yaml') else 'py'}:{case.get('expect') or 'no-expectation'}"]
     if op in ("mk", "oneof") or "expect" in case:
@@ -1130,6 +1391,8 @@ def check_case(chk: Check, impl: Impl, case, lines, ires, model_lines):
     op = case["op"]
     jcase = to_json({k: v for k, v in case.items()})
     key = json.dumps(jcase, sort_keys=True, default=str)
+    if op == "hist":
+        return check_history(chk, impl, case, jcase, key, ires[1], mres)
     chk.case(key, {"case": jcase, "impl": show(ires) if op != "verify" else ires[0], "model": lines[0][:200]},
              tags=classify(case) + [f"result:{ires[0]}" + (":" + ires[1] if ires[0] == "raise" else "")])
     if op in ("ctor", "bctor"):
@@ -1166,6 +1429,21 @@ def check_case(chk: Check, impl: Impl, case, lines, ires, model_lines):
             why = f"valid value rejected for {case['field']}: {ires[1]}"
     elif op == "verify":
         why = oracle_verify(impl, case["cfg"])
+    elif op == "which":
+        final = dict(case["init"])
+        for f, c in case["assign"]:
+            final[f] = c
+        nset = [f for f, c in final.items() if c]
+        what = "which_oneof_attrib_name()" if case["mode"] == "name" else "which_oneof()"
+        seq = f"{case['cls']}({', '.join(f + '=' + c + '()' for f, c in case['init'].items())})" + \
+              "".join(f"; obj.{f} = {c + '()' if c else 'None'}" for f, c in case["assign"])
+        if len(nset) > 1 and ires != ("raise", "ValueError"):
+            why = f"{seq}; obj.{what} -> {show(ires)[1] if ires[0] == 'ok' else ires!r} although {len(nset)} types " \
+                  f"are set ({', '.join(sorted(nset))}): must raise ValueError"
+        elif len(nset) <= 1 and ires[0] == "raise":
+            why = f"{seq}; obj.{what} raised {ires[1]} with {len(nset)} type(s) set"
+        elif len(nset) <= 1 and case["mode"] == "name" and ires != ("ok", tag(nset[0] if nset else None)):
+            why = f"{seq}; obj.{what} -> {show(ires)[1]!r}, the type set is {nset[0] if nset else None!r}"
     if why:
         chk.fail(f"C20 fails on {op}: {why}", jcase, show(ires) if op != "verify" else ires[0], sigs)
     # ---- correspondence
@@ -1178,6 +1456,41 @@ def check_case(chk: Check, impl: Impl, case, lines, ires, model_lines):
             chk.disagree(f"{op}: implementation == Config model", jcase, show(ires), show(mres[0]))
             if not why:
                 focused_search(chk, impl, case)
+    return agree
+
+
+def check_history(chk: Check, impl: Impl, case, jcase, key, outs, mres):
+    calls = [st["call"] for st in case["steps"] if "call" in st]
+    chk.case(key, {"case": jcase, "impl": [o[0] for o in outs]}, tags=[f"hist:{case.get('kind', 'mixed')}"])
+    agree = True
+    # oracle: every call returns what the same call returns on a fresh state
+    seen_mut = 0
+    ci = 0
+    for st in case["steps"]:
+        if "mutate" in st:
+            seen_mut += 1
+            continue
+        sub, o = calls[ci], outs[ci]
+        fresh = impl.fresh[json.dumps(to_json(sub), sort_keys=True)]
+        if o != fresh:
+            d = first_diff(o[1], fresh[1]) if o[0] == "ok" and fresh[0] == "ok" else f"{show(o)!r} instead of {show(fresh)!r}"
+            sigs = ["shared_mutable_default"] if only_shared_defaults(impl, o, fresh) else []
+            chk.fail(f"C20 fails on a call history: call #{ci} {describe(sub)}, made after {seen_mut} in-place "
+                     f"mutation(s) of earlier results, differs from the same call on a fresh state: {d}",
+                     jcase, show(o), sigs)
+            if not sigs:
+                break
+        ci += 1
+    known_shared = any(f.get("signature") == "shared_mutable_default" and f["status"] == "known" for f in chk.known)
+    for i, (sub, o, m) in enumerate(zip(calls, outs, mres)):
+        if o != m:
+            if known_shared and only_shared_defaults(impl, o, m):
+                chk.tag("explained-by:F-C20c")      # reported above through the oracle
+                continue
+            agree = False
+            chk.disagree("history: k-th builder result == Config model (pure function of the arguments)",
+                         {"history": jcase, "call": i}, show(o), show(m))
+            break
     return agree
 
 
@@ -1223,6 +1536,7 @@ def focused_search(chk: Check, impl: Impl, case):
 
 def run_cases(chk: Check, impl: Impl, cases):
     env = impl.env_lines()
+    impl.prime(cases)
     pre = [impl.run(c) for c in cases]
     all_lines, spans = list(env), []
     for lines, _ in pre:
@@ -1235,12 +1549,35 @@ def run_cases(chk: Check, impl: Impl, cases):
         check_case(chk, impl, c, lines, ires, outs[i:i + n])
 
 
+def model_lines_only(impl: Impl, sub):
+    """driver lines of one builder call (first line = the model the implementation is held to)"""
+    op = sub["op"]
+    if op == "aug":
+        return [f"aug fixed {toks(tag(sub['ia']))} {toks(tag(sub['ga']))}"]
+    if op in ("backbone", "head"):
+        return [f"{op} {toks(tag(sub['a']))}"]
+    if op == "new":
+        return [f"mk {sub['cls']} N 0"]
+    full = impl.full_args(getattr(impl.tr, f"get_{op}_config"), sub["kw"])
+    return [f"data fixed {toks(tag(full))}"] if op == "data" else [f"{op} {toks(tag(full))}"]
+
+
 def replay_known(chk: Check, impl: Impl):
     for ent in chk.known:
         w = from_json(ent.get("witness") or {})
         if ent["id"] == "F-C20":
             o = oracle_aug(impl, w.get("intensity_aug"), w["geometric_aug"])
             chk.known_replay("F-C20", still_fails=bool(o), detail="" if o else "every named augmentation enabled")
+        elif ent["id"] == "F-C20c":
+            a = impl.tr.get_aug_config(None, None)
+            before = tag(impl.structured(impl.tr.get_aug_config(None, None)))
+            saved = list(a.geometric.mixup_lambda)
+            a.geometric.mixup_lambda[0] = 0.5          # the caller edits ITS config in place
+            after = tag(impl.structured(impl.tr.get_aug_config(None, None)))
+            shared = a.geometric.mixup_lambda is impl.tr.get_aug_config(None, None).geometric.mixup_lambda
+            if shared:
+                a.geometric.mixup_lambda[:] = saved    # undo, so that the rest of the run starts clean
+            chk.known_replay("F-C20c", still_fails=before != after, detail="second call unaffected")
         elif ent["id"] == "F-C20b":
             r = impl.observe(impl.tr.get_model_config, backbone_config=w["backbone_config"], head_configs="centroid")
             chk.known_replay("F-C20b", still_fails=r[0] == "raise", detail=str(r[0]))
@@ -1254,6 +1591,8 @@ def main(chk: Check):
     cases += verify_cases(chk, impl)
     corpus = sorted((chk_path("corpus") / "C20").glob("*.json")) if (chk_path("corpus") / "C20").is_dir() else []
     cases = [from_json(json.loads(p.read_text())) for p in corpus] + cases
+    SCHEMA_CLASSES[:] = sorted(impl.classes)
+    cases += list(hist_cases(chk))      # last: they mutate objects the builders handed out
     run_cases(chk, impl, cases)
     chk.extra["schema_classes_sent"] = len(impl.classes)
 
